@@ -136,11 +136,14 @@ fn compute_paths_of_destructure(
             compute_paths_of_destructure(bindings, b, next_right_path, next_mask, bodyform);
         }
         SExp::Atom(_, name) => {
-            let mut produce_path = path.clone() | mask;
+            // Walk the path from the root of the structure: bit i of path
+            // (below the terminating mask bit) says whether step i goes to
+            // the right (rest) or to the left (first).
             let mut output_form = bodyform.clone();
+            let mut step_bit = bi_one();
 
-            while produce_path > bi_one() {
-                if path.clone() & produce_path.clone() != bi_zero() {
+            while step_bit < mask {
+                if path.clone() & step_bit.clone() != bi_zero() {
                     // Right path
                     output_form = Rc::new(make_operator1(
                         &bodyform.loc(),
@@ -156,7 +159,7 @@ fn compute_paths_of_destructure(
                     ));
                 }
 
-                produce_path /= 2_u32.to_bigint().unwrap();
+                step_bit *= 2_u32.to_bigint().unwrap();
             }
 
             bindings.push((name, output_form));
